@@ -8,7 +8,52 @@ section
 variable {α : Type} [Add α] [Sub α] [Mul α] [Div α] [Neg α] [LT α] [LE α] [BEq α]
   [DecidableLT α] [DecidableLE α] [NatCast α]
 
-/-- the state between `mainLoop` and the addition of the item's own width -/
+/-- after the reset at the top of the iteration every inactive node contains every forced break < b -/
+def StrongI (P : Params α) (items : List (Item α)) (b : Nat) (lb : LB α) : Prop :=
+  ∀ n, n ∈ lb.inact → ∀ f, f < b → forcedAt P items f = true → legalAt P items f = true →
+    f ∈ nonRootPos (n.d :: n.anc)
+
+theorem clear_inv (P : Params α) (items : List (Item α)) (lineW : α) (tol : Option α) (b : Nat) (lb : LB α)
+    (hI : Inv P items lineW tol b lb) :
+    Inv P items lineW tol b (clearStale P (prevOf items b) lb) ∧ StrongI P items b (clearStale P (prevOf items b) lb) := by
+  have keep : clearStale P (prevOf items b) lb = lb →
+      (∀ f, f + 1 = b → forcedAt P items f = false) →
+      Inv P items lineW tol b (clearStale P (prevOf items b) lb) ∧ StrongI P items b (clearStale P (prevOf items b) lb) := by
+    intro he hnf
+    rw [he]
+    refine ⟨hI, ?_⟩
+    intro n hn f hf hfo hle
+    by_cases h1 : f + 1 < b
+    · exact hI.forcedI n hn f h1 hfo hle
+    · have : f + 1 = b := by omega
+      rw [hnf f this] at hfo; cases hfo
+  cases b with
+  | zero => exact keep rfl (fun f hf => by omega)
+  | succ b' =>
+    simp only [prevOf]
+    cases hp : items[b']? with
+    | none =>
+      have he : clearStale P (prevOf items (b' + 1)) lb = lb := by simp [prevOf, hp, clearStale]
+      have := keep he (fun f hf => by
+        have : f = b' := by omega
+        subst this; simp [forcedAt, hp])
+      simpa [prevOf, hp] using this
+    | some p =>
+      cases hfp : isForced P p with
+      | false =>
+        have he : clearStale P (prevOf items (b' + 1)) lb = lb := by simp [prevOf, hp, clearStale, hfp]
+        have := keep he (fun f hf => by
+          have : f = b' := by omega
+          subst this; simp [forcedAt, hp, hfp])
+        simpa [prevOf, hp] using this
+      | true =>
+        simp only [clearStale, hfp, if_true]
+        refine ⟨⟨hI.sums, hI.act, ?_, hI.ne, hI.last, hI.forced, ?_, hI.ntol⟩, ?_⟩
+        · intro n hn; cases hn
+        · intro n hn; cases hn
+        · intro n hn; cases hn
+
+/-- the state between `mainLoop` and the additions to the running sums -/
 structure Mid (P : Params α) (items : List (Item α)) (lineW : α) (tol : Option α) (b : Nat) (lb lbm : LB α) : Prop where
   sums : (lbm.W, lbm.Y, lbm.Z) = pre items b
   ovf : lbm.ovf = lb.ovf
@@ -16,31 +61,33 @@ structure Mid (P : Params α) (items : List (Item α)) (lineW : α) (tol : Optio
   inact : ∀ n, n ∈ lbm.inact → NodeOK P items lineW tol lb.ovf b n
   ne : lbm.act ≠ [] ∨ (legalAt P items b = true ∧ lbm.inact ≠ [])
   last : forcedAt P items b = true → legalAt P items b = true → ∀ n, n ∈ lbm.act → n.d.pos = b ∧ n.anc ≠ []
-  forced : lb.ovf = false → ∀ n, n ∈ lbm.act → ∀ f, f < b + 1 → forcedAt P items f = true →
+  forced : ∀ n, n ∈ lbm.act → ∀ f, f < b + 1 → forcedAt P items f = true →
+    legalAt P items f = true → f ∈ nonRootPos (n.d :: n.anc)
+  forcedI : ∀ n, n ∈ lbm.inact → ∀ f, f < b → forcedAt P items f = true →
     legalAt P items f = true → f ∈ nonRootPos (n.d :: n.anc)
   ntol : lbm.nextTol = none ∨ ∃ r, lbm.nextTol = some r ∧ ltTol tol r = true ∧ InS P items lineW r
 
 theorem mid_of_inv (P : Params α) (items : List (Item α)) (lineW : α) (tol : Option α) (b : Nat)
     (it : Item α) (rest : List (Item α)) (lb lbm : LB α) (hdrop : items.drop b = it :: rest)
-    (hI : Inv P items lineW tol b lb)
+    (hI : Inv P items lineW tol b lb) (hS : StrongI P items b lb)
     (hm : (legalAt P items b = false ∧ lbm = lb) ∨
         (legalAt P items b = true ∧ lbm = mainLoop P items lineW tol b it rest lb)) :
     Mid P items lineW tol b lb lbm := by
   have hit : items[b]? = some it := drop_getElem? hdrop
   rcases hm with ⟨hleg, rfl⟩ | ⟨hleg, rfl⟩
-  · -- not a legal breakpoint: nothing but the sums changes
-    refine ⟨hI.sums, rfl, fun n hn => (hI.act n hn).succ, hI.inact, Or.inl hI.ne, ?_, ?_, hI.ntol⟩
+  · -- not a legal breakpoint: nothing changes
+    refine ⟨hI.sums, rfl, fun n hn => (hI.act n hn).succ, hI.inact, Or.inl hI.ne, ?_, ?_, hS, hI.ntol⟩
     · intro _ hl; rw [hleg] at hl; cases hl
-    · intro hov n hn f hf hfo hle
+    · intro n hn f hf hfo hle
       rcases Nat.lt_succ_iff_lt_or_eq.mp hf with hf | rfl
-      · exact hI.forced hov n hn f hf hfo hle
+      · exact hI.forced n hn f hf hfo hle
       · rw [hleg] at hle; cases hle
   · obtain ⟨⟨hW, hY, hZ, hO⟩, hact, hinact, hkeep, hall, htol⟩ :=
       mainLoop_spec P items lineW tol b it rest lb
     have hem : ∀ n, Emitted (mlCx P items lineW tol b it lb) (mlWidth it lb) (mlS P it rest lb) lb.act n →
         NodeOK P items lineW tol lb.ovf (b + 1) n ∧ n.d.pos = b ∧ ∃ a, a ∈ lb.act ∧ n.anc = a.d :: a.anc :=
       fun n h => emitted_nodeOK hdrop hI.sums hleg hI.act h
-    refine ⟨?_, hO, ?_, ?_, ?_, ?_, ?_, ?_⟩
+    refine ⟨?_, hO, ?_, ?_, ?_, ?_, ?_, ?_, ?_⟩
     · rw [hW, hY, hZ]; exact hI.sums
     · intro n hn
       rcases hact n hn with ⟨h, _⟩ | h
@@ -50,8 +97,7 @@ theorem mid_of_inv (P : Params α) (items : List (Item α)) (lineW : α) (tol : 
       rcases hinact n hn with h | h
       · exact hI.inact n h
       · exact hI.act n h
-    · -- some node of the non-empty old active list survives in one of the lists
-      cases hl : lb.act with
+    · cases hl : lb.act with
       | nil => exact absurd hl hI.ne
       | cons a as =>
         have ha : a ∈ lb.act := by rw [hl]; exact List.mem_cons_self
@@ -63,18 +109,22 @@ theorem mid_of_inv (P : Params α) (items : List (Item α)) (lineW : α) (tol : 
       · rw [forcedAt_eq hit] at hfo; rw [hfo] at hnf; cases hnf
       · obtain ⟨_, hp, a, _, han⟩ := hem n h
         exact ⟨hp, by rw [han]; simp⟩
-    · intro hov n hn f hf hfo hle
+    · intro n hn f hf hfo hle
       rcases hact n hn with ⟨h, hnf⟩ | h
       · rcases Nat.lt_succ_iff_lt_or_eq.mp hf with hf | rfl
-        · exact hI.forced hov n h f hf hfo hle
+        · exact hI.forced n h f hf hfo hle
         · rw [forcedAt_eq hit] at hfo; rw [hfo] at hnf; cases hnf
       · obtain ⟨_, hp, a, ha, han⟩ := hem n h
         rw [han]
         have : nonRootPos (n.d :: a.d :: a.anc) = n.d.pos :: nonRootPos (a.d :: a.anc) := rfl
         rw [this, hp]
         rcases Nat.lt_succ_iff_lt_or_eq.mp hf with hf | rfl
-        · exact List.mem_cons_of_mem _ (hI.forced hov a ha f hf hfo hle)
+        · exact List.mem_cons_of_mem _ (hI.forced a ha f hf hfo hle)
         · exact List.mem_cons_self
+    · intro n hn f hf hfo hle
+      rcases hinact n hn with h | h
+      · exact hS n h f hf hfo hle
+      · exact hI.forced n h f hf hfo hle
     · rcases htol with h | ⟨a, ha, r, hr, hlt, ht⟩
       · rw [h]; exact hI.ntol
       · right
@@ -88,37 +138,46 @@ theorem mid_of_inv (P : Params α) (items : List (Item α)) (lineW : α) (tol : 
 /-- one iteration of the item loop (without restart) preserves the invariant -/
 theorem step_inv (hrefl : ∀ a : α, (a == a) = true) (P : Params α) (items : List (Item α)) (lineW : α)
     (tol : Option α) (b : Nat) (it : Item α) (rest : List (Item α)) (lb lb1 lb2 : LB α)
-    (hdrop : items.drop b = it :: rest) (hI : Inv P items lineW tol b lb)
-    (h1 : itemStep P items lineW tol b (prevOf items b) it rest lb = some lb1)
-    (h2 : drastic tol b lb1 = some lb2) : Inv P items lineW tol (b + 1) lb2 := by
+    (hdrop : items.drop b = it :: rest) (hI0 : Inv P items lineW tol b lb)
+    (h1 : itemStep P items lineW tol b (prevOf items b) it rest (clearStale P (prevOf items b) lb) = some lb1)
+    (h2 : drastic P tol b it rest lb1 = some lb2) : Inv P items lineW tol (b + 1) (addGlue it lb2) := by
   have hit : items[b]? = some it := drop_getElem? hdrop
-  obtain ⟨lbm, hm, hs1, ha1, hi1, ht1, ho1⟩ := itemStep_cases P items lineW tol b it rest lb lb1 hdrop h1
-  have M := mid_of_inv P items lineW tol b it rest lb lbm hdrop hI hm
-  have hsums1 : (lb1.W, lb1.Y, lb1.Z) = pre items (b + 1) := by
-    rw [hs1, M.sums, pre_succ items b it hit]
-  rcases drastic_cases tol b lb1 lb2 h2 with ⟨hne, heq⟩ | ⟨hnil, hov2, hW2, hY2, hZ2, hin2, hnt2, hfb⟩
+  obtain ⟨hI, hS⟩ := clear_inv P items lineW tol b lb hI0
+  generalize clearStale P (prevOf items b) lb = lb0 at h1 hI hS
+  obtain ⟨lbm, hm, hs1, ha1, hi1, ht1, ho1⟩ := itemStep_cases P items lineW tol b it rest lb0 lb1 hdrop h1
+  have M := mid_of_inv P items lineW tol b it rest lb0 lbm hdrop hI hS hm
+  obtain ⟨g1, g2, g3, g4, g5⟩ := addGlue_spec it lb2
+  have hsums1 : (lb1.W, lb1.Y, lb1.Z) = boxAdd (pre items b) it := by rw [hs1, M.sums]
+  rcases drastic_cases P tol b it rest lb1 lb2 h2 with ⟨hne, heq⟩ | ⟨hnil, hov2, hW2, hY2, hZ2, hin2, hnt2, hfb⟩
   · -- the active list is not empty: nothing drastic
-    rw [heq]
-    have hov : lb1.ovf = lb.ovf := by rw [ho1, M.ovf]
-    refine ⟨hsums1, ?_, ?_, hne, ?_, ?_, ?_⟩
-    · intro n hn; rw [hov]; rw [ha1] at hn; exact M.act n hn
-    · intro n hn; rw [hov]; rw [hi1] at hn; exact (M.inact n hn).succ
+    rw [heq] at g1 g2 g3 g4 g5 ⊢
+    have hov : lb1.ovf = lb0.ovf := by rw [ho1, M.ovf]
+    refine ⟨?_, ?_, ?_, ?_, ?_, ?_, ?_, ?_⟩
+    · rw [g1, hsums1, glueAdd_boxAdd, pre_succ items b it hit]
+    · intro n hn; rw [g5, hov]; rw [g2, ha1] at hn; exact M.act n hn
+    · intro n hn; rw [g5, hov]; rw [g3, hi1] at hn; exact (M.inact n hn).succ
+    · rw [g2]; exact hne
     · intro f hf hfo hle n hn
       have : f = b := by omega
       subst this
-      rw [ha1] at hn; exact M.last hfo hle n hn
-    · intro ho n hn f hf hfo hle
-      rw [hov] at ho; rw [ha1] at hn
-      exact M.forced ho n hn f hf hfo hle
-    · rw [ht1]; exact M.ntol
+      rw [g2, ha1] at hn; exact M.last hfo hle n hn
+    · intro n hn f hf hfo hle
+      rw [g2, ha1] at hn
+      exact M.forced n hn f hf hfo hle
+    · intro n hn f hf hfo hle
+      rw [g3, hi1] at hn
+      exact M.forcedI n hn f (by omega) hfo hle
+    · rw [g4, ht1]; exact M.ntol
   · -- overflow fallback
     have hact0 : lbm.act = [] := by rw [← ha1]; exact hnil
     have hlegin : legalAt P items b = true ∧ lbm.inact ≠ [] := by
       rcases M.ne with h | h
       · exact absurd hact0 h
       · exact h
+    have hnb := legalAt_not_box hit hlegin.1
+    have hsums1' : (lb1.W, lb1.Y, lb1.Z) = pre items b := by rw [hsums1, boxAdd_of_not_box _ _ hnb]
     have hfbnodes : ∃ mw, minWidthOf lb1.W lb1.inact none = some mw ∧
-        lb2.act = fallbackNodes b lb1.W lb1.Y lb1.Z mw lb1.inact := by
+        lb2.act = fallbackNodes b (mlWidth it lb1) (mlS P it rest lb1) lb1.W mw lb1.inact := by
       rcases hfb with ⟨hnone, _⟩ | h
       · exfalso
         cases hl : lb1.inact with
@@ -130,28 +189,50 @@ theorem step_inv (hrefl : ∀ a : α, (a == a) = true) (P : Params α) (items : 
           rw [hy] at hnone; cases hnone
       · exact h
     obtain ⟨mw, hmw, hact2⟩ := hfbnodes
-    have hnodes : ∀ n, n ∈ lb2.act → NodeOK P items lineW tol true (b + 1) n ∧ n.d.pos = b ∧ n.anc ≠ [] := by
+    have hW1 : lb1.W = (pre items b).1 := congrArg (·.1) hsums1'
+    have hparent : ∀ n, n ∈ lb2.act → ∃ p, p ∈ lbm.inact ∧
+        n = ⟨⟨b, p.d.line + 1, 1, mlWidth it lb1, (mlS P it rest lb1).1, (mlS P it rest lb1).2.1,
+          (mlS P it rest lb1).2.2, k 0, p.d.dem + k 1000⟩, p.d :: p.anc⟩ := by
       intro n hn
       rw [hact2] at hn
-      obtain ⟨p, hp, rfl⟩ := fallbackNodes_mem b lb1.W lb1.Y lb1.Z mw n lb1.inact hn
+      obtain ⟨p, hp, hn⟩ := fallbackNodes_mem b _ _ lb1.W mw n lb1.inact hn
       rw [hi1] at hp
+      exact ⟨p, hp, hn⟩
+    have hnodes : ∀ n, n ∈ lb2.act → NodeOK P items lineW tol true (b + 1) n ∧ n.d.pos = b ∧ n.anc ≠ [] := by
+      intro n hn
+      obtain ⟨p, hp, rfl⟩ := hparent n hn
       have hpok := (M.inact p hp).toFb
       refine ⟨⟨?_, Or.inl (Nat.lt_succ_self b)⟩, rfl, by simp⟩
-      exact ChainOK.fallback _ p.d p.anc rfl hlegin.1 rfl hpok.2 hsums1 rfl rfl rfl rfl hpok.1
-    refine ⟨?_, ?_, ?_, ?_, ?_, ?_, ?_⟩
-    · rw [hW2, hY2, hZ2]; exact hsums1
-    · intro n hn; rw [hov2]; exact (hnodes n hn).1
-    · intro n hn; rw [hov2]; rw [hin2, hi1] at hn; exact (M.inact n hn).succ.toFb
-    · rw [hact2]
+      refine ChainOK.fallback _ p.d p.anc rfl hlegin.1 rfl hpok.2 ?_ ?_ rfl rfl rfl hpok.1
+      · show mlS P it rest lb1 = sumsAfter P items b
+        rw [sumsAfter_eq P items b it rest hdrop, ← hsums1']; rfl
+      · show mlWidth it lb1 = widthAt items b
+        unfold widthAt mlWidth
+        rw [hit]; simp only [hW1]
+    refine ⟨?_, ?_, ?_, ?_, ?_, ?_, ?_, ?_⟩
+    · rw [g1, hW2, hY2, hZ2, hsums1, glueAdd_boxAdd, pre_succ items b it hit]
+    · intro n hn; rw [g5, hov2]; rw [g2] at hn; exact (hnodes n hn).1
+    · intro n hn; rw [g5, hov2]; rw [g3, hin2, hi1] at hn; exact (M.inact n hn).succ.toFb
+    · rw [g2, hact2]
       rcases minWidthOf_spec lb1.W mw lb1.inact none hmw with h | ⟨q, hq, hqm⟩
       · cases h
-      · exact fallbackNodes_ne hrefl b lb1.W lb1.Y lb1.Z mw q lb1.inact hq hqm
+      · exact fallbackNodes_ne hrefl b _ _ lb1.W mw q lb1.inact hq hqm
     · intro f hf hfo hle n hn
       have : f = b := by omega
       subst this
+      rw [g2] at hn
       exact (hnodes n hn).2
-    · intro ho; rw [hov2] at ho; cases ho
-    · rw [hnt2, ht1]; exact M.ntol
+    · intro n hn f hf hfo hle
+      rw [g2] at hn
+      obtain ⟨p, hp, rfl⟩ := hparent n hn
+      show f ∈ b :: nonRootPos (p.d :: p.anc)
+      rcases Nat.lt_succ_iff_lt_or_eq.mp hf with hf | rfl
+      · exact List.mem_cons_of_mem _ (M.forcedI p hp f hf hfo hle)
+      · exact List.mem_cons_self
+    · intro n hn f hf hfo hle
+      rw [g3, hin2, hi1] at hn
+      exact M.forcedI n hn f (by omega) hfo hle
+    · rw [g4, hnt2, ht1]; exact M.ntol
 
 end
 end Canvas.C17
